@@ -327,6 +327,19 @@ func (s *Sock) Log() []Event {
 	return append([]Event(nil), s.log...)
 }
 
+// LogFrom returns a copy of the log from index from on (cheap for polling).
+func (s *Sock) LogFrom(from int) []Event {
+	s.mu.Lock()
+	defer s.mu.Unlock()
+	if from < 0 {
+		from = 0
+	}
+	if from >= len(s.log) {
+		return nil
+	}
+	return append([]Event(nil), s.log[from:]...)
+}
+
 // Len returns the current number of log events.
 func (s *Sock) Len() int {
 	s.mu.Lock()
